@@ -21,7 +21,7 @@ Local Open Scope Z_scope.
 
 (** * Storage *)
 
-Notation store := (gmap bytes bytes) (only parsing).
+Notation store := (@gmap bytes (@list_eq_dec N N_eq_dec) (@list_countable N N_eq_dec N_countable) bytes) (only parsing).
 
 (** [storage.Find(ctx, p, None)]: the (key, value) pairs whose key has prefix
     [p], ascending in the byte order of the keys (snapshot: it is a pure
